@@ -25,7 +25,13 @@ from mbv.harness import Check, MachineryError, main   # noqa: E402
 def scenarios(rng, n, tag='r'):
     for k in range(n):
         dim = rng.choice([1, 2, 2, 3])
-        L = rng.choice([6, 8, 12])
+        # box limits per axis (different lengths and offsets per axis)
+        lo3 = [rng.choice([0, 0, 1, -2]) for c in range(3)]
+        len3 = [rng.choice([6, 8, 12]) for c in range(3)]
+        if rng.random() < 0.3:
+            len3 = [len3[0]] * 3
+        hi3 = [lo3[c] + len3[c] for c in range(3)]
+        L = min(len3)
         kind = rng.choice(['per', 'per', 'mir', 'mix'])
         per = [False] * 3
         mir = [False] * 3
@@ -61,10 +67,13 @@ def scenarios(rng, n, tag='r'):
                     if c >= dim:
                         p[ax] = 0
                     elif per[c]:
-                        p[ax] = rng.choice([0, L, -1, L + 1, -2, 1, L - 1,
-                                            rng.randint(-2, L + 2)])
+                        p[ax] = lo3[c] + rng.choice(
+                            [0, len3[c], -1, len3[c] + 1, -2, 1, len3[c] - 1,
+                             rng.randint(-2, len3[c] + 2)])
                     else:
-                        p[ax] = rng.choice([0, L, 1, L - 1, rng.randint(0, L)])
+                        p[ax] = lo3[c] + rng.choice(
+                            [0, len3[c], 1, len3[c] - 1,
+                             rng.randint(0, len3[c])])
                 ps.append(p)
             arrays.append(dict(particles=ps))
         hmax = max([p['h'] for a in arrays for p in a['particles']] or [1])
@@ -83,7 +92,7 @@ def scenarios(rng, n, tag='r'):
         yield dict(
             id='%s%d' % (tag, k), dim=dim, rs=rs, n_layers=nl, unit=unit,
             origin=origin, arrays=arrays, moves=moves,
-            cfg=dict(lo=0, hi=L, per=per, mir=mir, layer=nl * rs * hmax,
+            cfg=dict(lo=lo3, hi=hi3, per=per, mir=mir, layer=nl * rs * hmax,
                      copyq=rng.random() < 0.6))
 
 
